@@ -632,7 +632,20 @@ fn gen_history(r: &mut Rng, pool: &[Vec<u8>], paths: &[&str]) -> (Tree, Tree, Ve
             ops = vec![Op::Write(true, p.clone(), lo.clone(), false), Op::Write(false, p.clone(), mid.clone(), false), Op::Run,
                        Op::Write(r.chance(1, 2), q, edit, false)];
             if r.chance(1, 2) { ops.push(Op::Run); }
+            // (not for names so long that a doubled conflict suffix plus the staging suffix exceeds NAME_MAX: the tool then
+            // stops with ENAMETOOLONG, which the model does not have)
+            if r.chance(1, 3) && p.rsplit('/').next().unwrap_or("").len() <= 150 {
+                // ... or the conflict COPY itself becomes the scene of the next conflict: its edit is synced, then one side
+                // edits it again while the other side puts the original loser back - the new loser needs a name of its own
+                // (the conflict name of a conflict name), whichever of the two loses
+                let q2 = format!("{}.conflict-vphost-{}", p, &hex(&h32(&lo))[..12]);
+                let e1: Vec<u8> = lo.iter().rev().map(|x| x ^ 0x2a).collect();
+                let side = r.chance(1, 2);
+                if !matches!(ops.last(), Some(Op::Run)) { ops.push(Op::Run); }
+                ops.extend(vec![Op::Write(side, q2.clone(), e1, false), Op::Write(!side, q2, lo.clone(), false), Op::Run, Op::Run]);
+            } else {
             ops.extend(vec![Op::Write(true, p.clone(), lo.clone(), false), Op::Write(false, p.clone(), hi.clone(), false), Op::Run, Op::Run]);
+            }
         }
         4 => {
             // one side is edited to other bytes of the same length and carries the opposite side's exact mtime
